@@ -106,6 +106,14 @@ def main():
             if v:
                 oracle_viol[i] = v
 
+        if hasattr(mod, "batch_check"):          # checks over the whole case list (e.g. one sanitized process)
+            try:
+                for i, v in mod.batch_check(cases, outs).items():
+                    oracle_viol.setdefault(i, []).extend(v)
+            except Exception as e:
+                log.append("batch_check crashed: %r" % e)
+                oracle_viol.setdefault(0, []).append("batch check crashed: %r" % e)
+
         # ---- 4. model inside Coq --------------------------------------------
         failing, errors = [], []
         lits, idx = [], []
